@@ -70,7 +70,8 @@ def run(ctx) -> None:
                             g = enclosing(r, (ast.If,))
                             cond_ok = g is not None and any(isinstance(x, ast.Call) and "get_ready_nodes" in call_names(db, x, impl) for x in ast.walk(g.test))
                             inner_ok = isinstance(inner, ast.Call) and "InfiniteLoopError" in src(inner.func) and inner.args and src(inner.args[0]) == src(lp.iter.args[0])
-                            state_ok = isinstance(e.args[1], ast.Name) and e.args[1].id == "state"
+                            svars = {nm for nm, ds in db.local_defs(impl).items() if any(isinstance(d, ast.Assign) and isinstance(d.value, ast.Call) and "initialize_state" in call_names(db, d.value, impl) for d in ds)}
+                            state_ok = isinstance(e.args[1], ast.Name) and e.args[1].id in svars
                             okb = cond_ok and inner_ok and state_ok
                             whyb = "exhaustion raises ExecutionError(InfiniteLoopError(bound), state) when nodes are still ready" if okb else f"exhaustion report malformed (ready-check={cond_ok}, InfiniteLoopError(bound)={inner_ok}, carries state={state_ok})"
                 rep.add("C04.R2", f"{impl.qname}:for-else", okb, f"{impl.module.rel}:{lp.lineno}", whyb)
